@@ -289,6 +289,12 @@ fn pool_entries(b: &mut Bench) -> usize {
     fmt_codec::decode(&b.med.live()).map(|d| d.pool.entries.len()).unwrap_or(0)
 }
 
+/// Pool entries that are in use (an unused entry is taken again before the pool grows).
+fn pool_live(b: &mut Bench) -> usize {
+    let _ = b.pkg.as_mut().unwrap().flush();
+    fmt_codec::decode(&b.med.live()).map(|d| d.pool.entries.iter().filter(|e| e.refcount > 0).count()).unwrap_or(0)
+}
+
 fn strs(from: usize, to: usize) -> Vec<Vec<msi::Value>> {
     (from..to).map(|i| vec![msi::Value::Str(format!("s{:05}", i)), msi::Value::Null]).collect()
 }
@@ -446,6 +452,28 @@ fn pool_limit(rep: &mut Report, mode: &str) {
             ok &= ok && expect(rep, "pool-65535", mode, "one more reference to an existing string", b.step("insert referencing a string that is already pooled", false, reuse), Some(Outcome::Ok));
             ok &= ok && expect(rep, "pool-65535", mode, "one new distinct string (65,535 distinct in all)", b.step("insert of one new string into the freed entry", false, ins(room, room + 1)), Some(Outcome::Ok));
             ok &= ok && expect(rep, "pool-65535", mode, "1 more", b.step("insert beyond the limit", false, ins(room + 1, room + 2)), Some(Outcome::Err));
+        }
+        "drop-table-frees-capacity" => {
+            // a dropped table gives its strings back: the same number of new strings fits again
+            ok &= expect(rep, "pool-65535", mode, "fill to L", b.step("insert of distinct strings up to 65,535 pool entries", true, ins(0, room)), Some(Outcome::Ok));
+            ok &= ok && expect(rep, "pool-65535", mode, "drop the table that holds them", b.step("drop_table of the table holding nearly all strings", false, |p| p.drop_table("S")), Some(Outcome::Ok));
+            if ok {
+                let _ = b.reopen();
+            }
+            let recreate = |p: &mut Pkg| p.create_table("S", vec![msi::Column::build("K").primary_key().string(16), msi::Column::build("V").nullable().string(16)]);
+            ok &= ok && expect(rep, "pool-65535", mode, "create the table again", b.step("create_table after the drop", false, recreate), Some(Outcome::Ok));
+            let fresh = |from: usize, to: usize| move |p: &mut Pkg| p.insert_rows(msi::Insert::into("S").rows((from..to).map(|i| vec![msi::Value::Str(format!("n{:05}", i)), msi::Value::Null]).collect()));
+            let room2 = if ok { CAP - pool_live(&mut b) } else { 0 };
+            if ok && room2 < room {
+                rep.violation(
+                    format!("{}/pool-65535/{}/capacity-not-released", PROP.with(|p| p.get()), mode),
+                    format!("[pool-65535 / {}] after drop_table of a table holding {} strings only {} pool entries are free", mode, room, room2),
+                    json!({"kind": "capacity", "limit": "pool-65535", "mode": mode, "step": "free entries after drop_table"}),
+                );
+                ok = false;
+            }
+            ok &= ok && expect(rep, "pool-65535", mode, "as many NEW strings as fit", b.step("insert of new distinct strings into the released entries", true, fresh(0, room2)), Some(Outcome::Ok));
+            ok &= ok && expect(rep, "pool-65535", mode, "1 more", b.step("insert beyond the limit after the refill", false, fresh(room2, room2 + 1)), Some(Outcome::Err));
         }
         "reference-count-overflow-at-full-pool" => {
             // one string referenced 65,534 times; a row holding it twice needs a second entry for it
@@ -683,6 +711,7 @@ pub fn which_of(limit: Option<&str>, mode: Option<&str>) -> usize {
         (_, Some("create-table-at-limit")) => 2,
         (_, Some("shared-strings-over-sessions")) => 3,
         (_, Some("existing-string-after-a-freed-entry")) => 6,
+        (_, Some("drop-table-frees-capacity")) => 8,
         _ => 4,
     }
 }
@@ -697,6 +726,7 @@ pub fn capacity_for(prop: &'static str, which: usize, rep: &mut Report) {
         2 => pool_limit(rep, "create-table-at-limit"),
         3 => pool_limit(rep, "shared-strings-over-sessions"),
         6 => pool_limit(rep, "existing-string-after-a-freed-entry"),
+        8 => pool_limit(rep, "drop-table-frees-capacity"),
         4 => pool_limit(rep, "reference-count-overflow-at-full-pool"),
         7 => validation_row_limit(rep),
         _ => catalog_row_limit(rep),
@@ -717,6 +747,7 @@ pub fn run(ctx: &Ctx) -> Report {
     jobs.push(("pool-65535", "create-table-at-limit"));
     jobs.push(("pool-65535", "shared-strings-over-sessions"));
     jobs.push(("pool-65535", "existing-string-after-a-freed-entry"));
+    jobs.push(("pool-65535", "drop-table-frees-capacity"));
     jobs.push(("pool-65535", "reference-count-overflow-at-full-pool"));
     jobs.push(("catalog-rows-65536", "create-table"));
     jobs.push(("catalog-rows-65536", "validation-rows"));
